@@ -13,8 +13,11 @@ fn gen_wide(r: &mut Rng) -> Ledger {
     let mut l: Ledger = Vec::new();
     let d0 = ledger::d(2019 + r.below(3) as i32, 3, 20);
     let sell_days: Vec<i64> = (0..(2 + r.below(4))).map(|k| 30 + k as i64 * *r.pick(&[5i64, 200, 400])).collect();
+    // half of the ledgers use tickers that are prefixes of one another, in mixed case
+    const FAMILY: &[&str] = &["G", "GO", "GOO", "GOOG", "GOOGL", "BT", "BTA", "bt1", "RR", "RRS", "rr", "A", "AA", "AAA"];
+    let family = r.chance(1, 2);
     for ti in 0..nt {
-        let tk = ledger::TICKERS[ti];
+        let tk = if family { FAMILY[ti % FAMILY.len()] } else { ledger::TICKERS[ti] };
         let q = Decimal::from(100);
         l.push(GTx::new(d0 + Duration::days(r.range(0, 10)), tk, Kind::Buy, q, ledger::gen_price(r), Decimal::ZERO));
         let full = r.chance(1, 2);
@@ -33,7 +36,7 @@ fn gen_wide(r: &mut Rng) -> Ledger {
 
 pub fn run(ctx: &mut Ctx) {
     let prop = "C16";
-    ctx.ev.rule = "wide ledgers (6–13 securities, about half fully sold, 2–5 shared disposal dates spread over several tax years, shuffled lines) and the standard generated ledgers: (a) calculate() run 4 times in-process (each HashMap draws a fresh seed) must give equal reports; tax years ascending, disposals by (date, ticker), holdings by ticker; (a′) the same for the single-year report of each of up to two years with ≥ 2 disposals; (b) the real binary run 3 times as separate processes for `report --format plain`, `report --format json`, `report --year Y --format json` and `parse` must give byte-identical stdout; echoed transactions in the text report by (date, ticker); whole report compared with the Lean model (which has no hash maps). Non-trivial = ledgers with ≥ 6 securities and ≥ 2 fully sold; distinct by ledger text.".into();
+    ctx.ev.rule = "wide ledgers (6–13 securities, half of them with tickers that are prefixes of one another, about half fully sold, 2–5 shared disposal dates spread over several tax years, shuffled lines) and the standard generated ledgers: (a) calculate() run 4 times in-process (each HashMap draws a fresh seed) must give equal reports; tax years ascending, disposals by (date, ticker), holdings by ticker; (a′) the same for the single-year report of each of up to two years with ≥ 2 disposals; (b) the real binary run 3 times as separate processes for `report --format plain`, `report --format json`, `report --year Y --format json` and `parse` must give byte-identical stdout; echoed transactions in the text report by (date, ticker); whole report compared with the Lean model (which has no hash maps). Non-trivial = ledgers with ≥ 6 securities and ≥ 2 fully sold; distinct by ledger text.".into();
     let ex = run_impl::wide_exemptions();
     let mut r = Rng::new(ctx.seed ^ 0xC16);
     let cfg = GenCfg::standard();
